@@ -359,4 +359,18 @@ theorem Cache.rget_absent_log (P : List K → K → OmProg K V) (fuel : Nat) {c 
       | keyError => exact ⟨⟨l, hl'⟩, hm, hh⟩
       | error => exact ⟨⟨l, hl'⟩, hm, hh⟩
 
+/-- a method call on one cache of a world — whatever its on_miss does — leaves every other cache alone -/
+theorem rwstepG_others {C : Type} (st : C → Op K V → C × Out K V C) (wst : List C → WOp K V → List C × Out K V C)
+    (w : List C) (i : Nat) (op : Op K V) (j : Nat) (hj : j < w.length) (hne : j ≠ i) :
+    (rwstepG st wst w (.on i op)).1[j]? = w[j]? := by
+  simp only [rwstepG]
+  split
+  · rfl
+  · rename_i c hc
+    split
+    · rename_i c' n hs
+      simp only []
+      rw [List.getElem?_append_left (by simpa using hj), List.getElem?_set_ne (Ne.symm hne)]
+    · simp only []; rw [List.getElem?_set_ne (Ne.symm hne)]
+
 end C02
